@@ -54,9 +54,11 @@ def analyse(atoms, seq):
             rad[e[1]] -= 1
             drad[e[1]] -= 1
         elif k == 'radset':
-            if rad[e[1]] is None or rad0[e[1]] != 0 or rad[e[1]] != 0:
+            # judged when the pattern fixes the radical count and no earlier
+            # edit of this sequence has moved it
+            if rad[e[1]] is None or rad[e[1]] != rad0[e[1]]:
                 return 'open', None
-            drad[e[1]] += e[2]
+            drad[e[1]] += e[2] - rad[e[1]]
             rad[e[1]] = e[2]
         else:
             i, j = min(e[1], e[2]), max(e[1], e[2])
